@@ -276,7 +276,7 @@ def io_plan(level_text, rule, must, quick, thorough):
 
 IO_TEXT = ("IoRecv / IoSend are explicit TLA+ state machines of the framed IO algorithms, one action per pipe call or window mutation, whose Validate and Size are the codec specification's. "
            "TLC checks WindowInv, HeadInv (nothing lost/duplicated/reordered by compaction), GuardInside, DeliveredInOrder, ClosedMeansAll, BoundedCalls, ParseNotStarve, SinkFramed, PoisonedStops in every state for every chunking / fault placement, "
-           "and termination under fairness on the permissive (any-policy) instance; the code-policy instance prints the environment script of every generated transition, which is replayed into the real blocking Sender / Receiver over scripted pipes (and the async ones over pipes that never, or once per call, answer Pending). '
+           "and termination under fairness on the permissive (any-policy) instance; the code-policy instance prints the environment script of every generated transition, which is replayed into the real blocking Sender / Receiver over scripted pipes (and the async ones over pipes that never, or once per call, answer Pending). "
            "RecvGuard::retain and early end-of-stream are actions of the receiver; IoRecv is checked to refine the integer window machine IoWindow, whose invariant Apalache shows inductive for every capacity. "
            "In the other direction every replayed run of the real receiver and sender is recorded (window hooks of the cargo feature `verif`, pipe calls with the bytes offered / delivered, returns) and TLC validates the records against TraceIoRecv / TraceIoSend.")
 
